@@ -52,8 +52,8 @@ CHECKS.update({
          "text": "definitional equality on ~6e4 grammar instances; two semantic clauses decided by z3 for all interpretations",
          "note": "semantic clauses skipped above tree size 400"},
  "C13": {"level": "model_checking", "engine": "AZ+TV",
-         "technique": "Theory/Logic order and selection code of pysmt/logics.py interpreted from source into z3 (all 2^12 flag vectors, all subsets of named logics); get_logic vs independent feature extraction",
-         "text": "order axioms, upper-bound and closest-logic properties are single z3 validity queries over the whole finite space; detection checked end to end on ~2e4 formulas",
+         "technique": "Theory/Logic order and selection code of pysmt/logics.py and the TheoryOracle.walk_* callbacks of pysmt/oracles.py interpreted from source into z3 (all 2^12 flag vectors per theory, all subsets of named logics, all child theories per operator); get_logic vs independent feature extraction",
+         "text": "order axioms, upper-bound, closest-logic and one-detection-step properties are single z3 validity queries over the whole finite space; detection also checked end to end on ~2e4 formulas",
          "note": "AZ interpreter validated against the real code on all 72x72 pairs of named logics on every run; class invariant assumed"},
 })
 
